@@ -21,6 +21,7 @@ MUTANTS = [
     {'name': 'bracket-stops-short-of-one', 'rule': 'D2.root', 'file': 'bivariate/base.py', 'old': "brentq(f, EPSILON, 1.0)", 'new': "brentq(f, EPSILON, 0.9)"},
     {'name': 'scalar-wrapper-transposes', 'rule': 'D2.stack', 'file': 'bivariate/base.py', 'old': "        X = np.column_stack((U, V))\n        return self.partial_derivative(X)", 'new': "        X = np.column_stack((V, U))\n        return self.partial_derivative(X)"},
     {'name': 'clayton-ppf-decreasing-in-y', 'rule': 'D6.monotone', 'file': 'bivariate/clayton.py', 'old': "            a = np.power(y, self.theta / (-1 - self.theta))", 'new': "            a = np.power(y, self.theta / (1 + self.theta))"},
+    {'name': 'brentq-loose-rtol', 'rule': 'D2.root', 'file': B, 'old': 'brentq(f, EPSILON, 1.0)', 'new': 'brentq(f, EPSILON, 1.0, rtol=float(EPSILON))'},
 ]
 REWRITES = [
     {'name': 'bracket-one-minus-eps', 'file': 'bivariate/base.py', 'old': "brentq(f, EPSILON, 1.0)", 'new': "brentq(f, EPSILON, 1.0 - EPSILON)"},
@@ -30,4 +31,5 @@ REWRITES = [
     {'name': 'rename-loop-vars', 'file': B, 'edits': [
         {'file': B, 'old': "        for _y, _v in zip(y, V):", 'new': "        for target, given in zip(y, V):"},
         {'file': B, 'old': "return np.ravel(self.partial_derivative_scalar(u, _v))[0] - _y", 'new': "return np.ravel(self.partial_derivative_scalar(u, given))[0] - target"}]},
+    {'name': 'brentq-explicit-default-xtol', 'file': B, 'old': 'brentq(f, EPSILON, 1.0)', 'new': 'brentq(f, EPSILON, 1.0, xtol=2e-12)'},
 ]
